@@ -427,6 +427,15 @@ class CropCorr(Corr):
                               vertex_level_points(rng, ring, xr, yr))
             if i % 23 == 5:
                 cloud = []
+            # degenerate selections: EVERY point within the footprint in xy (the heights still spread below / within / above the prism), or
+            # every point outside it, or everything inside the prism -- the inside / outside calls must still partition the cloud
+            fring = [(float(x), float(y)) for x, y in ring]
+            if i % 6 == 1:
+                cloud = [r for r in cloud if crossing_inside((r[0], r[1]), fring)]
+            elif i % 6 == 3:
+                cloud = [r for r in cloud if not crossing_inside((r[0], r[1]), fring)]
+            elif i % 12 == 4 and ncols >= 3:
+                cloud = [r for r in cloud if crossing_inside((r[0], r[1]), fring) and zlo < r[2] < zhi]
             out.append({"kind": name + ("_cw" if cw else "_ccw"), "ncols": ncols, "simple": True, "area": area, "cloud": cloud,
                         "margin_ok": True})
         # exotic rings (model vs code only for the geometry, the partition is still checked):
@@ -527,8 +536,16 @@ class CropCorr(Corr):
         return bool(obs.get("ins")) and bool(obs.get("outs"))
 
     def distribution(self, cases, obs):
-        d = {"kinds": {}, "points": 0, "inside": 0, "errors": 0, "ncols": {}}
+        d = {"kinds": {}, "points": 0, "inside": 0, "errors": 0, "ncols": {}, "clouds_with_no_point_outside_the_footprint": 0,
+             "clouds_entirely_inside": 0, "clouds_entirely_outside": 0}
         for c, o in zip(cases, obs):
+            if c["cloud"] and o.get("ins") is not None and o.get("outs") is not None:
+                d["clouds_entirely_inside"] += len(o["ins"]) == len(c["cloud"])
+                d["clouds_entirely_outside"] += len(o["outs"]) == len(c["cloud"])
+                n2 = len(c["area"]) // 2
+                if n2 >= 3 and c.get("simple"):
+                    ring = [(float(v[0]), float(v[1])) for v in c["area"][:n2]]
+                    d["clouds_with_no_point_outside_the_footprint"] += all(crossing_inside((r[0], r[1]), ring) for r in c["cloud"])
             k = c["kind"].replace("_cw", "").replace("_ccw", "")
             d["kinds"][k] = d["kinds"].get(k, 0) + 1
             d["ncols"][str(c["ncols"])] = d["ncols"].get(str(c["ncols"]), 0) + 1
